@@ -1,11 +1,49 @@
-import TinysetModel.Proofs.Consts
-/-! C14 — see /verif/properties.jsonl.  Theorems for this property are being added; the ones
-below are the obligations checked so far. -/
+import TinysetModel.Proofs.TotalSites
+import TinysetModel.Proofs.Plain2
+/-! C14 — allocation failure is contained.
+What a theorem about the functional model can and cannot say.  In the model an operation returns a new
+value, so "the set is unchanged when the operation fails" holds by construction; the question for the
+Rust code is whether anything is mutated IN PLACE before an allocation that may fail.  Reading the code,
+there are exactly two such places, and the theorems below are the facts that make them harmless:
+ 1. plain table, inserting the placeholder value: the placeholder is re-chosen in place before the table
+    may have to grow.  `replaced_placeholder_keeps_members`: that step keeps the decoded member list
+    (up to order) and the invariant — so after a failed growth the set holds exactly its prior contents,
+    although its representation (the placeholder word) differs.
+ 2. inline → heap switch (and every other rebuild): the new block is assigned first and then refilled.
+    `refill_never_grows_u64`: for the SetU64 configuration the refill only takes non-growing steps, i.e. it
+    requests no further block, so there is no allocation after the assignment.  For SetU32 this is false
+    for one growth site (`C20.regrow_can_nest_u32`), where a nested growth allocates while the local new set is
+    still a local — the caller-visible set is assigned only after the loop; the harness exercises that path.
+Everything else about this property — that the code panics rather than continuing, that unwinding frees the
+locals, that nothing leaks — is decided by fault injection in the harness (every allocation point of every
+operation of every history prefix), not by theorems. -/
 namespace C14
-open SC
+open SC RH
 
-/-- the model's constants are the ones in the current source -/
-theorem consts_match : TinyC.codec64.splits = Gen.bitsplits64 ∧ TinyC.codec32.splits = Gen.bitsplits32 :=
-  ⟨bitsplits64_match, bitsplits32_match⟩
+variable {c : Cfg} {D : Type}
+
+/-- the in-place placeholder replacement keeps the members, the invariant, and yields a usable placeholder -/
+theorem replaced_placeholder_keeps_members (g : Rng D) {sz cap bits : Nat} {a : Tbl} (pw : PlainWF bits sz a)
+    (hwords : ∀ x ∈ nz a, x < 2 ^ c.W) (d : D) {i : Nat}
+    (hscan : scanUp c (premove bits a 0).2.toList bits ((premove bits a 0).2.size + c.W + 3)
+      (modW c (g.draw d cap bits).1) = some i) :
+    ∃ a2, Plain2.repick c g cap bits a bits d = .ok ((a2, i), (g.draw d cap bits).2) ∧ PlainWF i sz a2 ∧
+      a2.size = a.size ∧ c.W < i ∧ i < 2 ^ c.W ∧ i ≠ bits ∧ (∀ x ∈ nz a2, x < 2 ^ c.W) ∧
+      (plainElems i a2).Perm (plainElems bits a) :=
+  Plain2.repick_spec g pw hwords d hscan
+
+/-- SetU64: re-inserting the members into a freshly built table never requests another block: every step
+    returns through a non-growing branch (the capacity of the table being refilled is unchanged) -/
+theorem refill_never_grows_u64 (g : Rng D) (rec : Ins D) (hrec : RecOK cfg64 rec) {V : List Nat} (xs : List Nat)
+    (r : Rp) (d : D) (gd : RefillGood cfg64 V r) (hxs : ∀ x ∈ xs, x ∈ V ∧ x < 2 ^ cfg64.W) :
+    ∃ r' d', insertAll (insertStep cfg64 g rec) r xs d = .ok (r', d') ∧ RefillGood cfg64 V r' :=
+  insertAll_total cfg64_ok rfl g rec hrec xs r d gd hxs
+
+/-- SetU64: an insert always returns a correct result when no allocation fails (the baseline that the
+    fault-injection runs perturb) -/
+theorem insert_returns_u64 (g : Rng D) {r : Rp} (wf : WF cfg64 r) (e : Nat) (he : e < 2 ^ 64)
+    (hsize : capacity r + 64 + 3 ≤ 2 ^ 64 ∧ 3 * len r + 4 + 64 + 3 ≤ 2 ^ 64) (d : D) :
+    ∃ r' b d', insert cfg64 g 3 r e d = .ok ((r', b), d') ∧ InsOK cfg64 r e r' b :=
+  insert_total_correct_u64 g wf e he hsize d
 
 end C14
